@@ -587,6 +587,17 @@ class World(object):
             getattr(self, "op_" + env_op[0])(*env_op[1:])
 
         def read():
+            if io_r == "reuse":
+                # one reader object used twice (prov.serializers is public): the second
+                # result must be as good as the first, and must not disturb the first
+                from prov import serializers
+                reader = serializers.get(fmt)()
+                first = reader.deserialize(io.StringIO(text))
+                snap = observe.doc_multiset(first)
+                second = reader.deserialize(io.StringIO(text))
+                if observe.doc_multiset(first) != snap or second is first:
+                    raise AssertionError("a second deserialize() through the same reader object changed the first result")
+                return second
             if io_r == "content":
                 return ProvDocument.deserialize(content=text, format=fmt)
             if io_r == "bytes":
